@@ -639,6 +639,10 @@ impl File {
         self.failed_runid = None;
         self.is_override = false;
         self.is_generated = false;
+        // A source has no checksum.  If this was once a target that recorded one, keeping
+        // it would -- like in set_override() -- let a later rebuild that reproduces the
+        // old output be reported as "unchanged" to dependents built from the user's file.
+        self.csum = String::new();
         Ok(())
     }
 
